@@ -44,6 +44,14 @@ class Roles:
         """top-level (non-closure) methods of the actor type, async fns represented by their coroutine"""
         out = []
         skip = {actor.dispatch, actor.start, actor.loop, (self.prog.facts.body(actor.dispatch).root or actor.dispatch)}
+        # everything between the spawned task and the dispatcher (an `async fn serve(&mut self, ..)` polled by the task's
+        # select is the loop, not a request handler)
+        import norm
+        for sid in norm.spine_of(self.prog, actor):
+            skip.add(sid)
+            sb = self.prog.facts.body(sid)
+            if sb is not None and sb.root:
+                skip.add(sb.root)
         for bid in self.impl_bodies(actor.ty):
             b = self.prog.facts.body(bid)
             if b.kind == "AssocFn" and bid not in skip and self.effect_body(bid) not in skip:
